@@ -35,6 +35,11 @@ TABLE_FILES = {'include/gdstk/map.hpp', 'include/gdstk/set.hpp', 'include/gdstk/
 METHODS = ['get_slot', 'insert', 'del', 'resize', 'next', 'has', 'copy_from']
 
 
+# decided for every list of up to four entries by R-MODEL.list; the CFG argument alarmed on one synthetic rewrite (a condition named by a
+# temporary whose value the boolean domain loses) and is kept as evidence only
+ADVISORY = [('R-MUSTPASS', r'^remove_property/single-occurrence-exit')]
+
+
 def is_slot_ptr(n, spec):
     t = n.t or ''
     return '*' in t and re.search(spec['item'], t) is not None
